@@ -280,14 +280,20 @@ pub fn run(ctx: &Ctx) {
   let mut hdays: Vec<usize> = Vec::new();
   for start in [(1582, 1, 1), (2020, 1, 1), (9990, 1, 1), (2, 1, 1)] {
     let o = civ.ord(start.0, start.1, start.2).unwrap();
-    hdays.extend(o..o + 400);
+    hdays.extend(o..(o + 400).min(civ.len()));
   }
+  // the first weeks of the range (sexagenary year 0: from the day after the Xiaohan day of year 1) and its last days
+  let first = civ.ord(1, 1, 7).unwrap();
+  hdays.extend(first..first + 45);
+  hdays.extend(civ.len() - 30..civ.len());
+  hdays.sort();
+  hdays.dedup();
   let done = par_chunks(ctx, 0, hdays.len(), 16, |a, b, l| {
     for i in a..b {
       check_hours(ctx, &civ, hdays[i], l);
     }
   });
-  ctx.subspace("hour lists of 4 x 400 consecutive days (from 0002-01-01, 1582-01-01, 2020-01-01, 9990-01-01): LunarDay 13 slots, SixtyCycleDay 12 slots", done, hdays.len() as u64);
+  ctx.subspace("hour lists of 4 x 400 consecutive days (from 0002-01-01, 1582-01-01, 2020-01-01, 9990-01-01), of 0001-01-07..02-20 and of the last 30 days of 9999: LunarDay 13 slots, SixtyCycleDay 12 slots", done, hdays.len() as u64);
   let tm = Terms::build(ctx, &civ);
   let years = years_for(ctx, 1, 9997);
   let done = par_chunks(ctx, 0, years.len(), 4, |a, b, l| {
@@ -297,7 +303,13 @@ pub fn run(ctx: &Ctx) {
       }
     }
   });
-  ctx.subspace(&format!("sexagenary months of {} Lichun-years x 12: days from the Jie day to the day before the next Jie", years.len()), done, years.len() as u64 * 12);
+  // the Chou month of sexagenary year 0 (0001-01-06..0001-02-04), the first month of the range
+  if ctx.primary() {
+    let mut l = Local::default();
+    check_sixty_month(ctx, &civ, &tm, 0, 11, &mut l);
+    ctx.add(&l);
+  }
+  ctx.subspace(&format!("sexagenary months of {} Lichun-years x 12 (and the last month of year 0): days from the Jie day to the day before the next Jie", years.len()), done, years.len() as u64 * 12);
   if ctx.primary() {
     let r = guard(|| SolarMonth::from_ym(1582, 10).get_days().iter().map(|d| d.get_day()).collect::<Vec<_>>());
     ctx.sample(format!("SolarMonth(1582,10).get_days() day numbers = {:?}; model 1..4, 15..31", r));
